@@ -16,6 +16,11 @@ def gen(ck, n):
         p["outs"] = outs
         p["xf"] = ck.rng.choice(XFS)
         ps.append(p)
+    # directed family: one definition, one use, every operand position of every statement kind (use sets of the statements)
+    for i in range(max(20, n // 5)):
+        p = proggen.defuse_program(ck.rng, n + i + 1)
+        p["xf"] = ck.rng.choice([["dce"], ["dce"], ["dce", "simplify"], ["simplify", "dce", "simplify"], ["lsa", "dce"]])
+        ps.append(p)
     return ps
 
 
